@@ -13,6 +13,7 @@ mod c16;
 mod c20;
 mod c11;
 mod c15;
+mod c09;
 
 fn main() {
     std::panic::set_hook(Box::new(|_| {}));
@@ -36,6 +37,7 @@ fn main() {
         "c20" => c20::run(tier, seed, &mut out),
         "c11" => c11::run(tier, seed, &mut out),
         "c15" => c15::run(tier, seed, &mut out),
+        "c09" => c09::run(tier, seed, &mut out),
         _ => {
             eprintln!("unknown family {}", fam);
             std::process::exit(2);
